@@ -2,6 +2,7 @@
 concrete path syntax (AST + spelling -> string) and a direct transcription of the documented
 path semantics over real elements (used by the oracles only)."""
 import copy
+import re
 import datetime
 import itertools
 
@@ -209,8 +210,9 @@ def build(tree, init=None, history=None):
     first = init if history else tree
     cls = schema_class(schema_of(first))
     root = cls(value_of(first))
+    removed_els = []
     if history:
-        apply_history(root, history)
+        removed_els = apply_history(root, history)
     byid, label = {}, {}
 
     def walk(el, node):
@@ -227,6 +229,13 @@ def build(tree, init=None, history=None):
                 assert keys[i] == kn.get("key", kn["name"]), "harness: dict key mismatch"
             walk(ke, kn)
     walk(root, tree)
+    if history:
+        # members removed from a List on the way (popped / deleted / replaced): labelled too, in the
+        # order the simulation records them
+        recs = simulate_removed(init, history)
+        assert len(recs) == len(removed_els), "harness: removed members simulated wrongly"
+        for rec, el in zip(recs, removed_els):
+            walk(el, rec["node"])
     if len(_BUILD_CACHE) > 64:
         _BUILD_CACHE.clear()
     out = (root, byid, label)
@@ -280,9 +289,25 @@ def _number_from(node, start):
     return c[0]
 
 
-def simulate_op(tree, op):
+def _removed_indexes(op, L):
+    """positions (before the operation) of the members a List operation takes out of the list"""
+    name = op["op"]
+    if name in ("pop", "delitem", "setitem", "remove"):
+        i = op["i"]
+        return [i if i >= 0 else L + i]
+    if name == "delslice":
+        return list(range(L)[slice(op["a"], op["b"], op["c"])])
+    if name == "setslice":
+        return list(range(L)[op["a"]:op["b"]])
+    return []
+
+
+def simulate_op(tree, op, removed=None):
     """apply one list operation to the description (in place) with Python's list semantics;
-    raises on an operation Python would reject"""
+    raises on an operation Python would reject.  `removed` collects a record per member that
+    leaves its list: how ("pop": List.pop clears the slot's parent; "replace": item assignment swaps
+    the slot's element; "del": every other removal leaves the old slot pointing at the list), the
+    list's id and the member's old position."""
     if op["op"] == "query":
         return  # evaluating a path does not change the tree
     n = _node_at(tree, op["at"])
@@ -302,6 +327,15 @@ def simulate_op(tree, op):
     K = n["kids"]
     new = copy.deepcopy(op.get("nodes", []))
     name = op["op"]
+    if removed is not None:
+        for idx in _removed_indexes(op, len(K)):
+            rec = {"how": "pop" if name == "pop" else "del", "list": n["id"], "old": idx,
+                   "id": K[idx]["id"], "node": copy.deepcopy(K[idx])}
+            if name == "setitem":
+                # item assignment of an Element keeps the slot and swaps its element: the old member
+                # still points at the live slot, which now holds the new member
+                rec["how"], rec["by"] = "replace", new[0]["id"]
+            removed.append(rec)
     if name == "pop":
         K.pop(op["i"])
     elif name == "insert":
@@ -335,6 +369,25 @@ def simulate(init, history):
     return t
 
 
+def simulate_removed(init, history):
+    t = copy.deepcopy(init)
+    removed = []
+    for op in history:
+        simulate_op(t, op, removed)
+    return removed
+
+
+def removed_subjects(init, history, final):
+    """the removed members a case talks about: popped ones, and deleted/replaced ones whose list is
+    still part of the final tree (their stale slot points at it)"""
+    if not history:
+        return []
+    present = {n["id"] for n in preorder(final)}
+    return [r for r in simulate_removed(init, history)
+            if r["how"] == "pop" or (r["how"] == "del" and r["list"] in present)
+            or (r["how"] == "replace" and r["by"] in present)]
+
+
 QUERY_PATHS = ["/", "/0", "/[:]", "/[0]", "/[-1]", "/..", "..", "../..", "../0", ".", "[:]", "0", "/1", "/[::-1]"]
 
 
@@ -362,7 +415,8 @@ def apply_history(root, history):
     `query` ops evaluate paths from elements of the tree in between; insertion ops marked
     `detached` first build the new members as free-standing elements, evaluate paths from inside
     them (`pre`: [position inside the new member, path]) and only then graft the very same
-    element objects into the tree."""
+    element objects into the tree.  Returns the member elements removed from lists, in order."""
+    removed = []
     for op in history:
         lst = root
         for i in op["at"]:
@@ -380,6 +434,8 @@ def apply_history(root, history):
             vals = [lst.member_schema(v) for v in vals]
             for k, rel, path in op.get("pre", []):
                 _query(_descend(vals[k], rel), path)
+        members = list(lst)
+        removed.extend(members[i] for i in _removed_indexes(op, len(members)))
         if name == "pop":
             lst.pop(op["i"])
         elif name == "insert":
@@ -406,6 +462,7 @@ def apply_history(root, history):
             lst.append(vals[0])
         else:
             raise ValueError(name)
+    return removed
 
 
 def _positions(node):
@@ -517,6 +574,81 @@ def rand_history(rng, tree, nops, setfield=0.0, queries=0.25, detached=0.5):
     if queries and hist and rng.random() < queries:
         hist.append({"at": rng.choice(_positions(t)), "op": "query", "path": rng.choice(QUERY_PATHS)})
     return t, hist
+
+
+def esc_name(name):
+    """the documented spelling of a field name as a path segment"""
+    if name in (".", ".."):
+        return name.replace(".", "\\.")
+    e = name.replace("/", "\\/").replace("[", "\\[")
+    return e.replace("\\.", "\\\\.").replace("\\]", "\\\\]")
+
+
+def doc_segments(top, target_id):
+    """documented path segments from the node `top` (exclusive) down to the node `target_id`:
+    position for sequence members, escaped name for mapping children; None if not below `top`"""
+    def go(n, acc):
+        if n["id"] == target_id:
+            return acc
+        for i, k in enumerate(n["kids"]):
+            seg = esc_name(k["name"]) if n["k"] in ("d", "c") else str(i)
+            r = go(k, acc + [seg])
+            if r is not None:
+                return r
+        return None
+    return go(top, [])
+
+
+def doc_fq(top, target_id):
+    segs = doc_segments(top, target_id)
+    return None if segs is None else "/" + "/".join(segs)
+
+
+def ref_read(fq):
+    """reference reader of an absolute path made of name segments: split at unescaped '/', a
+    backslash pairs with a following '/', '.', '['; the last empty segment is dropped, an inner one
+    is the step None; escapes of / [ ] . are removed"""
+    assert fq.startswith("/")
+    body, segs, cur, i = fq[1:], [], [], 0
+    while i < len(body):
+        c = body[i]
+        if c == "\\" and i + 1 < len(body) and body[i + 1] in "/.[":
+            cur.append(body[i:i + 2])
+            i += 2
+        elif c == "/":
+            segs.append("".join(cur))
+            cur = []
+            i += 1
+        else:
+            cur.append(c)
+            i += 1
+    segs.append("".join(cur))
+    if segs[-1] == "":
+        segs.pop()
+    return [None if x == "" else re.sub(r"\\(/|\[|\]|\.)", r"\1", x) for x in segs]
+
+
+def ref_eval(tree, fq):
+    """what find(fq) evaluates to on the description, looking names up among the KEYS of mappings
+    and by int() position in sequences: ("ok", node id) or ("error", "LookupError")"""
+    n = tree
+    for step in ref_read(fq):
+        nxt = None
+        if step is not None:
+            if n["k"] in ("d", "c"):
+                for k in n["kids"]:
+                    if k.get("key", k["name"]) == step:
+                        nxt = k
+                        break
+            elif n["k"] in ("l", "a", "m", "j"):
+                try:
+                    nxt = n["kids"][int(step)]
+                except (ValueError, IndexError):
+                    nxt = None
+        if nxt is None:
+            return ("error", "LookupError")
+        n = nxt
+    return ("ok", n["id"])
 
 
 def root_lazy_demo_cases():
@@ -681,18 +813,29 @@ def _is_slot(el):
     return isinstance(el, Slot)
 
 
-def doc_parent(el):
-    p = el.parent
-    if p is None:
+def doc_parent(el, removed=frozenset()):
+    """the documented parent: the container (the List for a list member); an element without a tree
+    above it — the root, or a member that was removed from its list (`removed`: python ids) — stays put"""
+    if id(el) in removed:
         return el
-    if _is_slot(p):
+    p = el.parent
+    if p is not None and _is_slot(p):
         p = p.parent
-    return p
+    return el if p is None else p
 
 
-def doc_root(el):
-    """the root of the tree the element is in now: follow the parent pointers (not `Element.root`,
-    which is the thing under test for a leading '/')"""
+def doc_root(el, removed=frozenset()):
+    """the root of the tree the element is in now: follow the (documented) parents — not
+    `Element.root`, which is the thing under test for a leading '/'"""
+    while True:
+        p = doc_parent(el, removed)
+        if p is el:
+            return el
+        el = p
+
+
+def asis_root(el):
+    """the top of the raw parent-pointer chain (a ListSlot for a popped member)"""
     while el.parent is not None:
         el = el.parent
     return el
@@ -719,12 +862,17 @@ def doc_child(el, s):
     return None
 
 
-def doc_step(st, el, strict):
+def doc_step(st, el, strict, removed=frozenset()):
     t = st["t"]
     if t == "up":
-        return [doc_parent(el)]
+        return [doc_parent(el, removed)]
     if t == "here":
         return [el]
+    if _is_slot(el):
+        # only reachable in the as-is reading (a popped member's chain ends in its old slot)
+        if t == "name":
+            raise NotImplementedError()
+        return []
     kids = list(el.children)
     if t == "name":
         c = doc_child(el, st["s"])
@@ -744,15 +892,39 @@ def doc_step(st, el, strict):
     raise ValueError(t)
 
 
-def doc_denote(ast, start, strict):
-    """list of elements, or raises LookupError"""
-    cur = [doc_root(start) if ast["top"] else start]
+def doc_denote(ast, start, strict, removed=frozenset(), asis=False):
+    """list of elements, or raises LookupError / ValueError.  `removed`: python ids of elements that
+    were removed from their list and are therefore roots of their own; `asis=True` instead follows
+    the raw parent pointers as they are (the prediction for removed members)."""
+    if ast["top"]:
+        cur = [asis_root(start) if asis else doc_root(start, removed)]
+    else:
+        cur = [start]
     for st in ast["steps"]:
         nxt = []
         for el in cur:
-            nxt.extend(doc_step(st, el, strict))
+            nxt.extend(doc_step(st, el, strict, frozenset() if asis else removed))
         cur = nxt
     return cur
+
+
+def doc_outcomes(ast, start, strict, removed=frozenset()):
+    """(list of elements or None, set of error kinds): every branch is followed, an element whose
+    step raises is dropped and the kind recorded — a real evaluation stops at the first error it
+    meets, which is one of these kinds, but which one depends on the order of evaluation"""
+    cur = [doc_root(start, removed) if ast["top"] else start]
+    kinds = set()
+    for st in ast["steps"]:
+        nxt = []
+        for el in cur:
+            try:
+                nxt.extend(doc_step(st, el, strict, removed))
+            except LookupError:
+                kinds.add("LookupError")
+            except ValueError:
+                kinds.add("ValueError")
+        cur = nxt
+    return (None if kinds else cur), kinds
 
 
 def single_of(strict, res):
